@@ -320,9 +320,9 @@ define void @f(%A %a, %B %b, %SA %x, %SA %y) {
 ;;; ATOM types/named-array-types-in-front-of-string-and-empty-array-constants
 %S = type [3 x i8]
 %A = type [0 x i32]
-%P = type { %S, %A }
+%Z = type { %S, %A }
 @s = global %S c"abc"
 @e = global %A []
 @n = global { %S } { %S c"abc" }
-@p = global %P { %S c"xyz", %A [] }
+@p = global %Z { %S c"xyz", %A [] }
 @arr = global [2 x %S] [%S c"abc", %S c"def"]
